@@ -2,10 +2,18 @@ package conc
 
 import (
 	"bufio"
+	"fmt"
 	"os"
+	"runtime"
 	"strconv"
 	"testing"
+	"time"
 )
+
+// scenarioWatchdog is the real-time limit of one scenario (they take milliseconds). A goroutine blocked on a
+// mutex for ever is not "durably blocked" for synctest, so a deadlock on a lock would otherwise hang the
+// worker until the test timeout: the watchdog dumps the goroutines and exits with status 124 (= hang).
+var scenarioWatchdog = 30 * time.Second
 
 // scenarioRunners maps the component prefix of a family name (the part before the
 // first ':' — e.g. "cli" in "cli:c04") to the function that runs one scenario of
@@ -43,11 +51,18 @@ func TestWorker(t *testing.T) {
 	defer w.Flush()
 	for i := from; i < to; i++ {
 		os.WriteFile(out+".progress", []byte(strconv.Itoa(i)), 0o644)
+		wd := time.AfterFunc(scenarioWatchdog, func() {
+			buf := make([]byte, 1<<16)
+			buf = buf[:runtime.Stack(buf, true)]
+			fmt.Fprintf(os.Stderr, "watchdog: scenario %d of %s did not finish within %v (hang)\n%s\nwatchdog: scenario %d of %s hung\n", i, fam, scenarioWatchdog, buf, i, fam)
+			os.Exit(124)
+		})
 		if run, ok := scenarioRunners[familyComponent(fam)]; ok {
 			run(t, fam, seed, i, w)
 		} else {
 			runServerScenario(t, fam, seed, i, w)
 		}
+		wd.Stop()
 		w.Flush()
 	}
 	os.WriteFile(out+".progress", []byte("done"), 0o644)
